@@ -455,7 +455,8 @@ func (st *State) assume(t Term) {
 	if t.S == "true" || st.noSide || st.inQuant > 0 {
 		return
 	}
-	st.pc = append(st.pc, t)
+	// top-level conjuncts are kept separately: obligations that repeat one of them are discharged syntactically
+	st.pc = append(st.pc, topConjuncts(t)...)
 }
 
 // classTerm returns the current array term of a heap class.
@@ -500,10 +501,48 @@ func (x *Exec) havocCallee(st *State, all bool, prefixes, except []string, byCal
 
 func (x *Exec) readLeaf(st *State, class string, idx []Term, sort string) Term {
 	a := x.classTerm(st, class, len(idx), sort)
+	// read-over-write at construction time: look through stores made on this path as long as the
+	// indices are syntactically equal (hit) or are two different fresh allocations (miss)
+	if st.param == nil && len(idx) >= 1 {
+		cur := a
+		for {
+			info, ok := x.stores[cur.S]
+			if !ok || len(info.idx) != len(idx) {
+				break
+			}
+			if info.idx[0].S == idx[0].S {
+				if len(idx) == 1 {
+					return info.val
+				}
+				if info.idx[1].S == idx[1].S {
+					return info.val
+				}
+				a1, ok1 := litVal(info.idx[1])
+				b1, ok2 := litVal(idx[1])
+				if ok1 && ok2 && a1 != b1 {
+					cur = info.prev
+					continue
+				}
+				break
+			}
+			if x.freshRefs[info.idx[0].S] && x.freshRefs[idx[0].S] {
+				cur = info.prev
+				continue
+			}
+			break
+		}
+		a = cur
+	}
 	for _, i := range idx {
 		a = mkSelect(a, i)
 	}
 	return a
+}
+
+type storeInfo struct {
+	prev Term
+	idx  []Term
+	val  Term
 }
 
 func (x *Exec) writeLeaf(st *State, class string, idx []Term, v Term) {
@@ -523,6 +562,9 @@ func (x *Exec) writeLeaf(st *State, class string, idx []Term, v Term) {
 	name := quoteSym(fmt.Sprintf("H:%s!%d", class, x.nsym))
 	st.defs = append(st.defs, fmt.Sprintf("(define-fun %s () %s %s)", name, nt.Sort, nt.S))
 	st.heap[class] = Term{name, nt.Sort}
+	if len(idx) >= 1 {
+		x.stores[name] = storeInfo{prev: a, idx: idx, val: v}
+	}
 }
 
 // load reads a value of type t from location p.
@@ -599,6 +641,7 @@ func (x *Exec) newRef(st *State, hint string) Term {
 	st.defs = append(st.defs, fmt.Sprintf("(define-fun %s () Int (+ %s 1))", name, st.alloc.S))
 	st.alloc = Term{name, sInt}
 	st.locals = append(st.locals, r)
+	x.freshRefs[r.S] = true
 	return r
 }
 
